@@ -62,25 +62,17 @@ Definition radial_assign (k : radial) (hp : list xreal) : radial * bool :=
   | None => (k, false)             (* check_hyperparameters_are_valid raised: no field was assigned *)
   end.
 
-(* MultitaskTensorCovariance.set_hyperparameters, statement by statement:
+(* MultitaskTensorCovariance.set_hyperparameters, statement by statement (since the repair 65c6caf):
      if not (isfinite(hp[0]) and hp[0] > 0): raise                         -> nothing assigned
-     self.process_variance = hp[0]                                         -> ASSIGNED before the component kernels are built
-     self.physical_covariance = physical_covariance_class([1, l_1..l_d])   -> may raise: process variance already taken
-     self.task_covariance = task_covariance_class([1, l_task])             -> may raise: process variance and physical kernel already taken *)
+     process_variance = hp[0]                                              (a local)
+     physical_covariance = physical_covariance_class([1, l_1..l_d])        (a local; may raise: nothing assigned)
+     task_covariance = task_covariance_class([1, l_task])                  (a local; may raise: nothing assigned)
+     self.process_variance, self.physical_covariance, self.task_covariance = the three locals
+   i.e. the object becomes what the constructor would build from hp, or stays what it was *)
 Definition multitask_assign (k : multitask) (hp : list xreal) : multitask * bool :=
-  match hp with
-  | a :: rest =>
-      if entry_ok a then
-        match radial_set (one :: removelast rest) with
-        | None => ({| m_alpha := a; m_phys := m_phys k; m_task := m_task k |}, false)
-        | Some p =>
-            match radial_set [one; last rest NaN] with
-            | None => ({| m_alpha := a; m_phys := p; m_task := m_task k |}, false)
-            | Some t => ({| m_alpha := a; m_phys := p; m_task := t |}, true)
-            end
-        end
-      else (k, false)
-  | [] => (k, false)
+  match multitask_set hp with
+  | Some k' => (k', true)
+  | None => (k, false)
   end.
 
 (* what can be seen of a live kernel object *)
@@ -138,7 +130,8 @@ Fixpoint houts_eqb (a b : list hout) : bool :=
   match a, b with [], [] => true | x :: a', y :: b' => hout_eqb x y && houts_eqb a' b' | _, _ => false end.
 
 (* the specification evaluated on the implementation's OWN outputs (no model involved): every probe is coherent; a read-back after an
-   accepted assignment is the vector assigned; for a radial kernel a read-back after a rejected assignment is the previous read-back *)
+   accepted assignment is the vector assigned; a read-back after a rejected assignment is the previous read-back (strict = true; strict =
+   false leaves it open: not used any more since the tensor kernel's setter was repaired) *)
 Fixpoint spec_outs (strict : bool) (cur : list xreal) (ops : list hop) (outs : list hout) : bool :=
   match ops, outs with
   | [], [] => true
@@ -177,7 +170,7 @@ Definition check (c : case) : bool :=
       end
   | CLiveMulti hp0 ops outs =>
       match multitask_set hp0 with
-      | Some k => houts_eqb (snd (run multitask_step k ops)) outs && spec_outs false hp0 ops outs
+      | Some k => houts_eqb (snd (run multitask_step k ops)) outs && spec_outs true hp0 ops outs
       | None => false
       end
   end.
